@@ -41,10 +41,47 @@ def crc_table_check(C):
     return rows
 
 
+WRITE_SITES = {("mpf/platforms/fast/communicators/base.py", "FastSerialCommunicator._socket_writer"):
+               "the writer task: takes commands from the send queue in order (W1/W2)",
+               ("mpf/platforms/fast/communicators/base.py", "FastSerialCommunicator.clear_board_serial_buffer"):
+               "start-up only: flushes the board's input buffer before the writer task exists"}
+
+
+def write_site_check(C):
+    """'queued commands keep their order': every byte written to a FAST port goes through the send queue and the writer
+    task.  Enumerates every call of write_to_port under mpf/platforms/fast; a new call site bypasses the queue."""
+    import os
+    rows = []
+    root = os.path.join(extract.REPO, "mpf/platforms/fast")
+    found = []
+    for dp, dn, fn in os.walk(root):
+        for f in fn:
+            if not f.endswith(".py"):
+                continue
+            relf = os.path.relpath(os.path.join(dp, f), extract.REPO)
+            src, tree = extract.load_module(relf)
+            stack = [(tree, "")]
+            while stack:
+                node, qual = stack.pop()
+                for ch in pyast.iter_child_nodes(node):
+                    q = qual
+                    if isinstance(ch, (pyast.ClassDef, pyast.FunctionDef, pyast.AsyncFunctionDef)):
+                        q = (qual + "." if qual else "") + ch.name
+                    if isinstance(ch, pyast.Call) and isinstance(ch.func, pyast.Attribute) and ch.func.attr == "write_to_port":
+                        found.append((relf, qual, ch.lineno))
+                    stack.append((ch, q))
+    for relf, qual, line in sorted(found):
+        ok = (relf, qual) in WRITE_SITES
+        rows.append(("write_to_port site %s:%s" % (relf, qual), ok, WRITE_SITES.get((relf, qual)) or
+                     "NEW site %s:%d writes to the port directly, past the send queue and its confirmation gate" % (relf, line)))
+    return rows
+
+
 def build():
     C = ContractSet("C14", "Serial links: framing, integrity and command flow control")
     C.strings = True
     C.finite_checks.append(crc_table_check)
+    C.finite_checks.append(write_site_check)
 
     # ------------------------------------------------------------------ OPP CRC
     LOOKUP = z3.Function("CRC8_LOOKUP", z3.IntSort(), z3.IntSort())
@@ -165,6 +202,14 @@ def build():
               "self.inp_addr_dict.card.old_state == old(self.inp_addr_dict.card.old_state)))"),
          ],
          modifies=["self.bad_crc", "self.inp_addr_dict.card.old_state"], raises={})
+
+    C.fn("OppHardwarePlatform.read_gen2_inp_resp_initial", params=dict(chain_serial=Str, msg=Seq(Int)),
+         requires=["chain_serial in self.bad_crc", "chain_serial in self.opp_connection"],
+         defs=["crc_def(msg, 0, 0)"],
+         ensures=[("a start-up input frame with a wrong checksum never sets the card's input state either",
+                   "implies(len(msg) >= 7, implies(msg[6] != crc(msg, 0, 6), n_switch_events() == 0 and "
+                   "self.inp_addr_dict.card.old_state == old(self.inp_addr_dict.card.old_state)))")],
+         modifies=["self.bad_crc", "self.inp_addr_dict.card.old_state"], raises={"AssertionError": "len(msg) < 7"})
 
     # ------------------------------------------------------------------ FAST
     C.cls("AsyncEvent", fields=dict(flag=Bool))
